@@ -174,16 +174,24 @@ func (r *macatRun) argv(dir string, id int) (args []string, bindAddrs, dialAddrs
 				args = append(args, "--format="+t.V)
 			}
 		case "data":
+			val := string(r.data)
+			if t.V == "empty" {
+				val = "" // an empty payload is a payload
+			}
 			if v%2 == 0 {
-				args = append(args, "--data", string(r.data))
+				args = append(args, "--data", val)
 			} else {
-				args = append(args, "-D", string(r.data))
+				args = append(args, "-D", val)
 			}
 		case "file":
 			p := fmt.Sprintf("%s/f%d", dir, id)
-			if t.V == "ok" {
+			switch t.V {
+			case "ok":
 				_ = os.WriteFile(p, r.data, 0o644)
-			} else {
+			case "empty":
+				p += ".empty"
+				_ = os.WriteFile(p, nil, 0o644) // an empty file is a payload too
+			default:
 				p += ".absent"
 			}
 			if v%2 == 0 {
@@ -508,6 +516,13 @@ type macatScn struct {
 }
 
 func emitRun(r *rec.Recorder, run *macatRun, o *macatObs) {
+	firstEmpty := false
+	for _, t := range run.toks {
+		if t.O == "data" || t.O == "file" {
+			firstEmpty = t.V == "empty"
+			break
+		}
+	}
 	alleq, allempty := true, true
 	for _, g := range o.got {
 		if !bytes.Equal(g, run.data) {
@@ -518,7 +533,7 @@ func emitRun(r *rec.Recorder, run *macatRun, o *macatObs) {
 		}
 	}
 	r.Emit("mrun", "toks", run.toks, "code", o.code, "nsent", len(o.got), "alleq", alleq, "allempty", allempty, "nreq", o.nreq,
-		"outlen", len(o.stdout), "datalen", len(run.data), "ms", int(o.elapsed/time.Millisecond), "killat", run.killAt)
+		"outlen", len(o.stdout), "datalen", len(run.data), "ms", int(o.elapsed/time.Millisecond), "killat", run.killAt, "dataempty", firstEmpty)
 }
 
 // --- command lines -------------------------------------------------------------
@@ -586,6 +601,18 @@ func TestMacatArgs(t *testing.T) {
 		add("forever", []mtok{tk("proto", p, 0), addrFor(p), tk("data", "", 0), tk("interval", "ok", 20), rt}, long)
 		add("forever", []mtok{tk("interval", "ok", 20), tk("proto", p, 0), tk("file", "ok", 0), addrFor(p), rt}, long)
 	}
+	// 1b. an interval without a receive timeout: the wait for an answer is bounded by the interval itself, so every
+	// message is sent although the peer never answers (PAIR / BUS / STAR peers of the harness do not)
+	for _, p := range []string{"pair", "bus", "star"} {
+		add("ival-nort", []mtok{tk("proto", p, 0), tk("connect", "ok", 0), tk("data", "", 0), tk("count", "", 3), tk("interval", "ok", 40)}, long)
+		add("ival-longrt", []mtok{tk("proto", p, 0), tk("connect", "ok", 0), tk("data", "", 0), tk("count", "", 3), tk("interval", "ok", 40), tk("rt", "ok", 20000)}, long)
+	}
+	// 1c. an empty payload is a payload: sent as an empty message, and a second payload conflicts with it
+	add("empty", []mtok{tk("proto", "push", 0), tk("connect", "ok", 0), tk("data", "empty", 0), tk("count", "", 2)}, long)
+	add("empty", []mtok{tk("proto", "push", 0), tk("connect", "ok", 0), tk("file", "empty", 0)}, long)
+	add("empty2", []mtok{tk("proto", "push", 0), tk("connect", "ok", 0), tk("data", "empty", 0), tk("file", "ok", 0)}, long)
+	add("empty2", []mtok{tk("proto", "push", 0), tk("file", "empty", 0), tk("connect", "ok", 0), tk("data", "", 0)}, long)
+	add("empty2", []mtok{tk("data", "empty", 0), tk("proto", "push", 0), tk("data", "", 0), tk("connect", "ok", 0)}, long)
 	// 2. receivers and repliers
 	for _, p := range []string{"pull", "sub", "pair", "bus", "star", "rep", "respondent"} {
 		add("recv", []mtok{tk("proto", p, 0), addrFor(p), rt}, long)
@@ -652,7 +679,7 @@ func TestMacatArgs(t *testing.T) {
 
 func hasData(ts []mtok) bool {
 	for _, t := range ts {
-		if t.O == "data" || (t.O == "file" && t.V == "ok") {
+		if t.O == "data" || (t.O == "file" && (t.V == "ok" || t.V == "empty")) {
 			return true
 		}
 	}
